@@ -63,6 +63,20 @@ Definition all_fields : list field := [FType; FText; FFile; FLine; FFunc; FCat; 
 Definition copy_ok (cfg : copy_cfg) : bool :=
   forallb (fun f => match cfg f with Rehome => is_ptr f | CopyVal => negb (is_ptr f) | _ => false end) all_fields.
 
+(* ---- handlers that render the message's time stamp (PatternFormatter: %{time process}, %{time boot}) ------------ *)
+(* where a relative time format takes its value from: the steady time stamp carried by the message (lmsg.steadyTime()),
+   or the clock at the moment the handler runs — in asynchronous mode the moment the logger thread got round to the
+   message.  tools/s2c/async.py reads the two branches of TimeToken::appendToString (SrcAsync.v). *)
+Inductive tsrc := TSMessage | TSClock.
+Definition tsrc_is_message (t : tsrc) : bool := match t with TSMessage => true | TSClock => false end.
+(* the rendered text: [fmt] is the (external) number formatting, [now] the clock when the handler runs *)
+Definition render_rel (src : tsrc) (fmt : bytes -> bytes) (now : bytes) (m : msg) : bytes :=
+  fmt (match src with TSMessage => m_steady m | TSClock => now end).
+(* what a sink behind such a formatter receives for the k-th delivered message, the k-th run of the handler
+   happening at clock value [clk k] *)
+Fixpoint rendered_from (src : tsrc) (fmt : bytes -> bytes) (clk : nat -> bytes) (k : nat) (l : list msg) : list bytes :=
+  match l with [] => [] | m :: r => render_rel src fmt (clk k) m :: rendered_from src fmt clk (S k) r end.
+
 (* ---- skeleton IR ------------------------------------------------------------------------------- *)
 Inductive amutex := MM.   (* OwnThreadHandler::m_mutex *)
 Inductive ainstr :=
